@@ -194,6 +194,8 @@ class ExprMixin:
         if name in mod.classes:
             return VType(name)
         if name in mod.assigns:
+            if name not in mod.classes and self.functional_namedtuple_fields(name) is not None:
+                return VType(name)          # X = namedtuple("X", ...): a record class of the module
             v = self.module_const(name)
             return v
         if name in mod.imports:
@@ -637,6 +639,8 @@ class ExprMixin:
         return out
 
     def get_attr(self, st, base, attr, node):
+        if isinstance(base, VTuple) and attr in getattr(base, "names", ()):
+            return [(st, base.items[base.names.index(attr)])]       # field of a typing.NamedTuple instance
         if isinstance(base, VMod):
             return [(st, self.resolve_dotted(f"{base.name}.{attr}"))]
         if isinstance(base, VFunc) and base.how == "ext":
